@@ -299,6 +299,13 @@ def body(PROP, plan):
         nreorg_rows = sum(1 for e in evs if e["ev"] == "reorg" and e["ok"] and e["rows"] > 0)
         if drift:
             V.log("DRIFT spec=EVMSync behaviours=%d of %d (the real gate sequence left the specification; traces still judged)" % (drift, len(behs)))
+            shown = 0
+            for k, (s0, e0) in enumerate(spans):
+                for e in evs[s0:e0]:
+                    if e["ev"] == "drift" and shown < 5:
+                        shown += 1
+                        V.log("  behaviour %d (%s) step %d %s: expected %s, %s" % (k, behs[k]["proc"], e["step"], e["want"], e["at"], e["got"]))
+                        res.notes.append("drift in behaviour %d step %d (%s): expected %s, %s" % (k, e["step"], e["want"], e["at"], e["got"]))
             res.notes.append("DRIFT in %d of %d behaviours: the exhaustive model-checking result does not transfer to them" % (drift, len(behs)))
         sample_idx = sorted(set([0, n_edge // 2, max(0, len(behs) - 1)]))
         res.coverage = dict(
